@@ -7,6 +7,7 @@
 import PasfmtModel.Proofs.SpacingLayout
 import PasfmtModel.Proofs.SpacingLayoutW
 import PasfmtModel.Model.Pipeline
+import PasfmtModel.Generated.Inventory
 
 namespace Pasfmt.C06
 
@@ -62,5 +63,21 @@ example :
     simp [spacingItems, spacingItemsGo] at hp
     rcases hp with rfl | rfl <;> simp
   · decide
+
+/-- **Translator obligation: where the input's layout is read.**  Every read of a token's original whitespace
+    (`get_leading_whitespace`), of its line-break count (`newlines_before`) and of the newline string in the
+    parser and in every rule under `core/src/rules/` (consolidators, ignorers, spacing, wrapper), regenerated from
+    the Rust source on every run.  Today: the asm-instruction splitter (line breaks inside asm blocks, excluded by
+    the property), the multi-line string re-indenter (terminator to write), the end-of-file rule (a write), the
+    wrapper's blank-line clamp and its write of the chosen breaks, and `max_one_either_side` ("on another line"
+    counts as one space).  A new site - e.g. a consolidator or a spacing rule that looks at whether a gap holds a
+    line break - breaks this obligation even before any input is run. -/
+theorem layout_is_read_only_at_known_sites :
+    layoutReads = ["get_leading_whitespace@core/src/defaults/parser.rs:parse_asm_instructions",
+      "get_newline_str@core/src/rules/optimising_line_formatter/multiline_strings.rs:try_rewrite_string",
+      "newlines_before@core/src/rules/eof_newline.rs:format",
+      "newlines_before@core/src/rules/optimising_line_formatter/mod.rs:format",
+      "newlines_before@core/src/rules/optimising_line_formatter/mod.rs:reconstruct_solution",
+      "newlines_before@core/src/rules/token_spacing.rs:max_one_either_side"] := rfl
 
 end Pasfmt.C06
